@@ -22,6 +22,10 @@ func main() {
 	_, err := lib.DecompressGZIP(src, 9)
 	runtime.ReadMemStats(&m1)
 	fmt.Printf("DecompressGZIP(input %d bytes, declared 1GiB): err=%v, bytes allocated during call=%d MiB\n", src.Len(), err, (m1.TotalAlloc-m0.TotalAlloc)>>20)
+	runtime.ReadMemStats(&m0)
+	_, err = lib.DecompressLZW(src, 9)
+	runtime.ReadMemStats(&m1)
+	fmt.Printf("DecompressLZW(input %d bytes, declared 1GiB): err=%v, bytes allocated during call=%d MiB\n", src.Len(), err, (m1.TotalAlloc-m0.TotalAlloc)>>20)
 
 	// F-N2: registered map type: count 2^28 in a 9 byte body
 	if err := edf.RegisterTypeOf(M{}); err != nil && err != gen.ErrTaken {
